@@ -326,6 +326,59 @@ def run(prog, rep):
                       "%s drops %s when falsy (`%s`)" % (sf.name, sorted(risky), unparse(n.test)[:60]), where(sf, n),
                       witness="uncertainty = 0 is missing from the export")
 
+    # SKIP-1: an attribute is left out because of what it IS (the id key, handled by the node itself) or because it is empty - never because its
+    # value happens to equal another value of the object
+    rep.rule("SKIP-1", "in the three save_* loops every comparison of the attribute value in a skip guard (`if ...: continue`) is with a "
+                       "constant or an empty display (None, '', []): skipping `curr_val == <obj>.id` (or `in (..., <obj>.id)`) drops every attribute "
+                       "that merely has that value - the name of an unnamed Property is its id")
+    n_skip = 0
+    for fname in ("Document", "Section", "Property"):
+        sf = W.lookup_method(SAVE[fname])
+        for h in private_closure(sf):
+            for n in walk_no_nested(h.node):
+                if not (isinstance(n, ast.If) and any(isinstance(x, ast.Continue) for x in n.body)):
+                    continue
+                for cmp in [y for y in ast.walk(n.test) if isinstance(y, ast.Compare)]:
+                    sides = [cmp.left] + list(cmp.comparators)
+                    if not any(isinstance(y, ast.Name) and y.id in ("curr_val", "val", "value") for sd in sides for y in ast.walk(sd)):
+                        continue
+                    n_skip += 1
+
+                    def plain(e):
+                        if isinstance(e, ast.Constant):
+                            return True
+                        if isinstance(e, (ast.List, ast.Tuple, ast.Set, ast.Dict)):
+                            return all(plain(x) for x in getattr(e, "elts", [])) and not getattr(e, "keys", None)
+                        return isinstance(e, ast.Name)
+                    foreign = [unparse(sd) for sd in sides if not plain(sd)]
+                    rep.check(not foreign, "SKIP-1", "%s: `%s`" % (h.name, unparse(cmp)[:50]), "compares with constants only",
+                              "%s skips an attribute whose value equals %s: attributes are dropped by coincidence of values" % (h.short, foreign),
+                              where(h, cmp), witness="a Property created without a name (its name is its id): hasName is not exported, the graph does not import back")
+    rep.floor("SKIP-1", n_skip, 1, "value comparisons in the skip guards of the RDF writer")
+
+    # READ-3: the reader's constructor only loads the graph
+    rep.rule("READ-3", "RDFReader.__init__ converts nothing: no call in it reaches to_odml (to_odml appends to self.docs, so a conversion in the "
+                       "constructor makes RDFReader(file, format).to_odml() return every document twice)")
+    ri = Rd.lookup_method("__init__")
+    if ri is None:
+        raise AnalysisError("RDFReader.__init__ vanished")
+    seen, todo, reaches = set(), [ri], False
+    while todo:
+        cur = todo.pop()
+        if cur.qualname in seen:
+            continue
+        seen.add(cur.qualname)
+        for c in calls_in(cur.node):
+            if isinstance(c.func, ast.Attribute) and isinstance(c.func.value, ast.Name) and cur.params and c.func.value.id == cur.params[0]:
+                if c.func.attr == "to_odml":
+                    reaches = True
+                m = Rd.lookup_method(c.func.attr)
+                if m is not None:
+                    todo.append(m)
+    rep.check(not reaches, "READ-3", "RDFReader.__init__ does not convert", "no path to to_odml",
+              "RDFReader.__init__ reaches to_odml: the documents are converted once by the constructor and again by the caller's to_odml()", ri.where,
+              witness="len(RDFReader(path, 'turtle').to_odml()) == 2 for a file holding one document")
+
     # reader side of TRUTH-3: an object fetched from the graph is never tested for truthiness (a Literal 0 / 0.0 is falsy)
     for fname in ("Document", "Section", "Property"):
         pf = Rd.lookup_method(PARSE[fname])
